@@ -18,7 +18,13 @@ import (
 	"time"
 )
 
-const VerifDir = "/verif"
+// VerifDir is /verif unless VERIF_DIR points at a working copy.
+var VerifDir = func() string {
+	if d := os.Getenv("VERIF_DIR"); d != "" {
+		return d
+	}
+	return "/verif"
+}()
 
 // Finding is one entry of known_findings.json.
 type Finding struct {
@@ -303,3 +309,18 @@ func max64(a, b int64) int64 {
 
 // FP builds a fingerprint "<id>/<part>/<part>...".
 func FP(parts ...string) string { return strings.Join(parts, "/") }
+
+// LoadReplayCase reads the "case" member of a replay file into v.
+func LoadReplayCase(path string, v any) error {
+	b, err := os.ReadFile(path)
+	if err != nil {
+		return err
+	}
+	var w struct {
+		Case json.RawMessage `json:"case"`
+	}
+	if err := json.Unmarshal(b, &w); err != nil {
+		return err
+	}
+	return json.Unmarshal(w.Case, v)
+}
